@@ -166,6 +166,15 @@ theorem reset_py_is_model (restart teardownSet : Bool) :
       .ret () ⟨restart, (if restart then false else teardownSet), true, restart⟩ :=
   py_reset_eq_model restart teardownSet
 
+/-- **The model is the code** (`teardown`, `reestablish`, `stop` — what the API and the reactor ask of a peer):
+    the three methods, translated from /repo on this run, leave `_teardown` / `_restart` (and, for `stop`, the FSM)
+    exactly as the model's `.teardown code`, `.reestablish` and `stopP` do. -/
+theorem control_py_is_model (s : State) (code : Nat) :
+    Generated.PyPeer.Control.teardown (ctl s false) code true = .ret () (ctl (react s (.teardown code)).1 false) ∧
+    Generated.PyPeer.Control.reestablish (ctl s false) = .ret () (ctl (react s .reestablish).1 false) ∧
+    Generated.PyPeer.Control.stop (ctl s false) = .ret () (ctl (stopP s).1 true) :=
+  ⟨py_teardown_eq_model s code, py_reestablish_eq_model s, (py_stop_eq_model s).1⟩
+
 /-! ## the hypotheses are satisfiable, the conclusions are not vacuous -/
 
 /-- a whole session: establishment, routes and End-of-RIB in ESTABLISHED, teardown with cease, restart. -/
